@@ -351,13 +351,15 @@ def malformed_cases():
   for mname, bad in MALFORMED.items():
     for pname, fn in POSITIONS.items():
       yield ['malformed', mname, pname]
+      yield ['malformed', mname, pname, 'after_wellformed']
   for extra in ['@a/c03.h ()x', '%a /b', '@a /c03.h()', '@a/c03 .h', '@a/c03. h', '%a/ b', '@a/ c03.h', '@a//c03.h', '@/c03.h', '%a//b', '%/a',
                 '@a/c03..h', '@c03.h.()', '%mac.', '@']:
     yield ['malformed_value', extra, 'value']
+    yield ['malformed_value', extra, 'value', 'after_wellformed']
 
 
 def check_malformed(case, res):
-  kind, mname, pname = case
+  kind, mname, pname = case[:3]
   if kind == 'malformed':
     bad = MALFORMED[mname]
     text = POSITIONS[pname](bad)
@@ -378,9 +380,23 @@ def check_malformed(case, res):
       text = hdr + ':\n  x = 1'
   else:
     text = 'c03.f.y = ' + mname
+  # variants: the malformed statement alone, and preceded IN THE SAME TEXT by the well-formed spelling of the same name
+  # (a parser that remembers names it has validated must still reject the malformed occurrence)
+  variant = case[3] if len(case) > 3 else 'alone'
+  if variant == 'after_wellformed':
+    if kind == 'malformed':
+      text = good_text.replace('= 1', '= 0').replace('x = 0', 'x = 0') + '\n' + text
+    else:
+      good = {'@': 'c03.f.y = @a/c03.h()', '%': 'c03.f.y = %a/b'}.get(mname.lstrip()[:1], 'c03.f.y = @a/c03.h()')
+      text = good + '\n' + 'c03.f.y = @a/c03.h\nc03.f.y = %mac\n' + text
   res.case(text, True)
   harness.hard_reset()
   gin.parse_config('mac = 1\na/b = 2')
+  if variant == 'after_wellformed':
+    try:
+      gin.parse_config(text.rsplit('\n', 1)[0] if kind != 'malformed' else good_text.replace('= 1', '= 0'))
+    except Exception:  # pylint: disable=broad-except
+      pass
   before = gin.config_str()
   try:
     gin.parse_config(text)
